@@ -15,7 +15,7 @@
 From Coq Require Import NArith ZArith Reals List.
 From Flocq Require Import Core.Raux.
 From Coq Require Import Floats.
-From DS Require Import Base.Prelude Base.FloatBits Base.FloatLemmas Model.Bounds Model.HllEst Proofs.BoundsFloat Proofs.BoundsProofs Proofs.BoundsCeil
+From DS Require Import Base.Prelude Base.FloatBits Base.FloatLemmas Model.Bounds Model.HllEst Proofs.BoundsFloat Proofs.BoundsProofs Proofs.BoundsCeil Proofs.BoundsTheta
   Proofs.CouponSweepDefs Proofs.CouponSweep Model.Composite Proofs.CompositeProofs Proofs.RefTablesMatch Proofs.Martingale.
 From Coq Require Import QArith.
 From DS Require Spec.RefTables Gen.GenBoundsHll Gen.GenBoundsComposite Gen.GenBoundsCpc Gen.GenBoundsTheta Gen.GenHll.
@@ -102,6 +102,14 @@ Theorem c01_theta_bounds_ordered :
   fle (bb_lower_of n theta raw_lb) est /\ fle est (bb_upper_of n theta raw_ub false).
 Proof. exact theta_bounds_ordered. Qed.
 
+(* the same at the level of the sketch accessors (ThetaSketch / CompactThetaSketch estimate, lower_bound, upper_bound):
+   every retained count, every theta64 in [1, MAX_THETA], empty or not (an empty sketch retains nothing) *)
+Theorem c01_theta_sketch_bounds_ordered :
+  forall empty n th raw_lb raw_ub, n < 2 ^ 63 -> 1 <= th <= MAX_THETA -> (empty = true -> n = 0) ->
+  let est := theta_estimate empty n th in
+  fle (theta_lower_of n th raw_lb) est /\ fle est (theta_upper_of empty n th raw_ub).
+Proof. exact theta_sketch_bounds_ordered. Qed.
+
 (* exact mode: the estimate and both bounds are exactly the retained count
    (= the number of distinct items offered: property C04) *)
 Theorem c01_theta_exact_mode :
@@ -136,8 +144,10 @@ Proof. exact composite_straddle. Qed.
 (* ---- the empirically fitted tables and constants of every estimator (HLL relative-error tables and RSE factors, raw-estimate
         correction factors, composite x-arrays / y strides / crossover constants, harmonic numbers, coupon interpolation
         arrays, CPC ICON polynomial and confidence tables, theta binomial equivalence tables and tail probabilities), as
-        re-read from the Rust source on this run, equal the frozen reference of Spec/RefTables.v.  These fits have no
-        derivation to be proved against: their published values are the specification of "unbiased, RSE as advertised";
+        re-read from the Rust source on this run, equal the frozen reference of Spec/RefTables.v, a snapshot of the
+        tables of the pinned source tree (it proves "unchanged since the pin", the published upstream files not being
+        available offline).  These fits have no derivation to be proved against: their values are the specification of
+        "unbiased, RSE as advertised";
         a change makes the check search for a configuration with significant bias or under-coverage (Monte Carlo) ---- *)
 Theorem c01_estimator_tables_are_reference :
   GenBoundsHll.HIP_LB = RefTables.GenBoundsHll.HIP_LB /\
@@ -200,4 +210,37 @@ Proof.
   split; [apply fnn_of_bool; vm_compute; reflexivity|].
   split; [vm_compute; reflexivity|]. split; [vm_compute; reflexivity|]. split; [vm_compute; reflexivity|].
   split; [apply fnn_of_bool; vm_compute; reflexivity|]. split; vm_compute; reflexivity.
+Qed.
+
+(* non-vacuity of the hypotheses of the theorems above, each instantiated on a concrete state *)
+Example c01_example_theta :
+  let '(lo, up) := (theta_lower_of 100 (2 ^ 62) 90%float, theta_upper_of false 100 (2 ^ 62) 230%float) in
+  fle lo (theta_estimate false 100 (2 ^ 62)) /\ fle (theta_estimate false 100 (2 ^ 62)) up /\
+  PrimFloat.ltb lo up = true.
+Proof.
+  cbv zeta. destruct (theta_sketch_bounds_ordered false 100 (2 ^ 62) 90%float 230%float) as [A B];
+    [lia|unfold MAX_THETA; lia|discriminate|].
+  split; [exact A|]. split; [exact B|]. vm_compute. reflexivity.
+Qed.
+
+Example c01_example_hip_accumulator :
+  ge_count (hip_run 16 [16; 15.5; 15.25; 14.25]%float 0%float) 4.
+Proof.
+  apply (hip_ge_count 16%float [16; 15.5; 15.25; 14.25]%float).
+  - apply fnn_of_bool; vm_compute; reflexivity.
+  - repeat (apply Forall_cons; [split; [apply fpos_of_bool; vm_compute; reflexivity|apply FR_le_of_bool; vm_compute; reflexivity]|]).
+    apply Forall_nil.
+  - cbn. lia.
+Qed.
+
+Example c01_example_composite_straddle :
+  let xs := X_ARRAY 10 in let raw := 5000%float in
+  let i := find_straddle xs raw in
+  PrimFloat.leb (HllEst.fnth xs i) raw = true /\ PrimFloat.ltb raw (HllEst.fnth xs (i + 1)) = true.
+Proof.
+  cbv zeta. destruct (composite_straddle 10 5000%float ltac:(lia)) as (_ & A & B).
+  - apply fin_of_bool. vm_compute. reflexivity.
+  - vm_compute. reflexivity.
+  - vm_compute. reflexivity.
+  - split; assumption.
 Qed.
